@@ -54,6 +54,12 @@ func NondetRange(id int, lo int, hi int) int { return lo }
 func NondetString(id int, maxLen int) string { return "" }
 
 //go:noinline
+func NondetInt64R(id int, lo, hi int64) int64 { return lo }
+
+//go:noinline
+func NondetUint64R(id int, lo, hi uint64) uint64 { return lo }
+
+//go:noinline
 func VerifOutI64(tag string, v int64) { println(tag, int32(v>>32), uint32(v)) }
 
 //go:noinline
@@ -79,6 +85,20 @@ func VerifReach(k int) {}
 '''
 
 SEL_ID = 9999
+
+
+class Mismatch(Exception):
+    """raised by a reference when the shape of the JS trace (tags, kinds, counts) cannot equal the reference's"""
+
+
+def arg(ev, k, kind='int'):
+    """k-th argument term of a JS event, required to be of the given kind"""
+    if k >= len(ev['args']):
+        raise Mismatch()
+    t, jk = ev['args'][k]
+    if jk != kind:
+        raise Mismatch()
+    return t
 
 
 class Case:
@@ -128,22 +148,52 @@ def f64_of(term, kind):
     raise ValueError(kind)
 
 
-def _explore_chunk(args):
-    idx, cases_src, ncases, workdir, cfg = args
+_WORK = {}
+
+
+def _explore_chunk(idx):
+    """Worker: compile, explore and verify one chunk of cases; returns a Report (cases referenced by tag only)."""
+    ch, workdir, cfg, known, z3_timeout_ms = _WORK['chunks'][idx], _WORK['workdir'], _WORK['cfg'], _WORK['known'], _WORK['z3_timeout_ms']
+    rep = Report()
+    rep.known = known
+    rep.programs = 1
     d = os.path.join(workdir, 'prog%d' % idx)
-    core.write_pkg(d, {'main.go': cases_src})
+    core.write_pkg(d, {'main.go': program_source(ch)})
     t0 = time.time()
     ok, out = core.compile_js(d)
     if not ok:
-        return idx, {'compile_error': out}
+        for c in ch:
+            rep.cases += 1
+            rep.inconclusive.append({'tag': c.tag, 'reason': 'template does not compile: ' + out[-400:]})
+        return rep
     t1 = time.time()
     try:
         res = core.explore(out, cfg)
     except Exception as e:  # noqa
-        return idx, {'engine_error': str(e)}
-    res['compile_s'] = t1 - t0
-    res['explore_s'] = time.time() - t1
-    return idx, res
+        for c in ch:
+            rep.cases += 1
+            rep.inconclusive.append({'tag': c.tag, 'reason': 'engine error: ' + str(e)[-400:]})
+        return rep
+    rep.compile_s = t1 - t0
+    rep.explore_s = time.time() - t1
+    rep.engine_queries = res['queries']
+    rep.engine_solver_s = res['solverMs'] / 1000.0
+    if res.get('solverErrors'):
+        rep.solver_errors = res['solverErrors'][:3]
+    z3 = core.Z3Session(timeout_ms=z3_timeout_ms)
+    try:
+        _verify_program(rep, z3, res, ch)
+    finally:
+        rep.queries = z3.queries
+        rep.solver_s = z3.solver_s
+        rep.solver_errors = getattr(rep, 'solver_errors', []) + z3.errors[:3]
+        z3.close()
+    for v in rep.violations:
+        v['case'] = v['case'].tag
+    shutil.rmtree(d, ignore_errors=True)
+    sys.stderr.write('[chunk %d] %d cases, %d paths, %d verified, explore %.1fs, compare %.1fs (%s)\n' % (
+        idx, len(ch), rep.paths, len(rep.verified_cases), rep.explore_s, rep.solver_s, ch[0].tag))
+    return rep
 
 
 class Report:
@@ -165,48 +215,53 @@ class Report:
         self.explore_s = 0.0
         self.known = []
         self.known_hits = []
+        self.solver_errors = []
+
+    def merge(self, o):
+        for k in ('programs', 'cases', 'paths', 'queries', 'solver_s', 'engine_queries', 'engine_solver_s', 'compile_s', 'explore_s'):
+            setattr(self, k, getattr(self, k) + getattr(o, k))
+        for k in ('violations', 'inconclusive', 'verified_cases', 'known_hits', 'solver_errors'):
+            getattr(self, k).extend(getattr(o, k))
+        for s_ in o.samples:
+            if len(self.samples) < 12:
+                self.samples.append(s_)
+        for k, v in o.flags.items():
+            self.flags[k] = self.flags.get(k, 0) + v
 
 
 def check_cases(cases, workdir, chunk=40, cfg=None, jobs=None, z3_timeout_ms=30000, report=None, progress=None, known=None):
-    """Compile, explore and verify all cases.  Returns a Report."""
+    """Compile, explore and verify all cases (in parallel, one process per chunk).  Returns a Report."""
     rep = report or Report()
     rep.known = known or []
-    cfg = dict(cfg or {})
     chunks = [cases[i:i + chunk] for i in range(0, len(cases), chunk)]
-    work = [(i, program_source(ch), len(ch), workdir, cfg) for i, ch in enumerate(chunks)]
-    jobs = jobs or min(len(work), max(1, (os.cpu_count() or 4)))
-    # make sure the compiler is built once, before forking
-    core.gopherjs_bin()
+    _WORK.update(chunks=chunks, workdir=workdir, cfg=dict(cfg or {}), known=known or [], z3_timeout_ms=z3_timeout_ms)
+    jobs = jobs or min(len(chunks), max(1, (os.cpu_count() or 4)))
+    core.gopherjs_bin()     # build the compiler once, before forking
     t0 = time.time()
-    if jobs > 1 and len(work) > 1:
-        with multiprocessing.Pool(jobs) as pool:
-            results = pool.map(_explore_chunk, work)
+    results = []
+    if jobs > 1 and len(chunks) > 1:
+        import concurrent.futures
+        ctx = multiprocessing.get_context('fork')
+        with concurrent.futures.ProcessPoolExecutor(max_workers=jobs, mp_context=ctx) as ex:
+            futs = {ex.submit(_explore_chunk, i): i for i in range(len(chunks))}
+            for f in concurrent.futures.as_completed(futs):
+                i = futs[f]
+                try:
+                    results.append(f.result())
+                except Exception as e:  # noqa  (worker crashed)
+                    r = Report()
+                    r.programs = 1
+                    for c in chunks[i]:
+                        r.cases += 1
+                        r.inconclusive.append({'tag': c.tag, 'reason': 'worker failed: %s' % str(e)[:200]})
+                    results.append(r)
     else:
-        results = [_explore_chunk(w) for w in work]
-    results.sort()
-    z3 = core.Z3Session(timeout_ms=z3_timeout_ms)
-    z3.send(gospec.PREAMBLE)
-    try:
-        for (idx, res), ch in zip(results, chunks):
-            rep.programs += 1
-            if 'compile_error' in res:
-                for c in ch:
-                    rep.inconclusive.append({'tag': c.tag, 'reason': 'template does not compile: ' + res['compile_error'][-400:]})
-                continue
-            if 'engine_error' in res:
-                for c in ch:
-                    rep.inconclusive.append({'tag': c.tag, 'reason': 'engine error: ' + res['engine_error'][-400:]})
-                continue
-            rep.compile_s += res.get('compile_s', 0)
-            rep.explore_s += res.get('explore_s', 0)
-            rep.engine_queries += res['queries']
-            rep.engine_solver_s += res['solverMs'] / 1000.0
-            _verify_program(rep, z3, res, ch)
-    finally:
-        rep.queries += z3.queries
-        rep.solver_s += z3.solver_s
-        rep.solver_errors = z3.errors[:5]
-        z3.close()
+        results = [_explore_chunk(i) for i in range(len(chunks))]
+    bytag = {c.tag: c for c in cases}
+    for r in results:
+        rep.merge(r)
+    for v in rep.violations:
+        v['case'] = bytag[v['case']]
     rep.wall_s = time.time() - t0
     return rep
 
@@ -227,6 +282,7 @@ def _verify_program(rep, z3, res, cases):
         by_case.setdefault(_route(z3, smt_prelude, p, len(cases)), []).append(p)
     if res.get('truncated') or res.get('pendingLeft'):
         for c in cases:
+            rep.cases += 1
             rep.inconclusive.append({'tag': c.tag, 'reason': 'path budget exhausted (%d paths left unexplored)' % res.get('pendingLeft', 0)})
         return
     for i, c in enumerate(cases):
@@ -246,20 +302,16 @@ def _verify_program(rep, z3, res, cases):
             if verdict not in ('ok', 'known'):
                 ok = False
         # coverage: every input of the case lies on some explored path
-        z3.push()
-        z3.send(smt_prelude)
-        for d in core.input_decls(all_inputs):
-            z3.send(d)
+        lines = [gospec.PREAMBLE, smt_prelude] + core.input_decls(all_inputs)
         seen = set()
         for p in paths:
             for d in p['defs']:
                 if d not in seen:
                     seen.add(d)
-                    z3.send(d)
-        z3.send('(assert (= in_%d %d))' % (SEL_ID, i))
-        z3.send('(assert (not (or false %s)))' % ' '.join('(and true %s)' % ' '.join(p['pc']) for p in paths))
-        r = z3.check()
-        z3.pop()
+                    lines.append(d)
+        lines.append('(assert (= in_%d %d))' % (SEL_ID, i))
+        lines.append('(assert (not (or false %s)))' % ' '.join('(and true %s)' % ' '.join(p['pc']) for p in paths))
+        r, _, _ = z3.solve(lines)
         if r != 'unsat':
             ok = False
             rep.inconclusive.append({'tag': c.tag, 'reason': 'coverage of the input space not shown (%s)' % r})
@@ -270,24 +322,18 @@ def _verify_program(rep, z3, res, cases):
                                     'js_value': json.dumps(paths[0]['obs'][-1]['args'][-1])[:300] if paths[0]['obs'] else None})
 
 
+def _base(prelude, p):
+    return [gospec.PREAMBLE, prelude] + core.input_decls(p['inputs']) + list(p['defs']) + ['(assert %s)' % c for c in p['pc']]
+
+
 def _route(z3, prelude, p, n):
     sel = p['inputs'].get('in_%d' % SEL_ID)
     if sel is None:
         return 0 if n == 1 else None
-    z3.push()
-    z3.send(prelude)
-    for d in core.input_decls(p['inputs']):
-        z3.send(d)
-    for d in p['defs']:
-        z3.send(d)
-    for c in p['pc']:
-        z3.send('(assert %s)' % c)
-    r = z3.check()
-    k = None
+    r, model, _ = z3.solve(_base(prelude, p), get=['in_%d' % SEL_ID])
     if r == 'sat':
-        k = z3.model(['in_%d' % SEL_ID]).get('in_%d' % SEL_ID)
-    z3.pop()
-    return k
+        return model.get('in_%d' % SEL_ID)
+    return None
 
 
 def _verify_path(rep, z3, prelude, p, c, ref):
@@ -299,67 +345,108 @@ def _verify_path(rep, z3, prelude, p, c, ref):
         rep.inconclusive.append({'tag': c.tag, 'reason': '%s: %s' % (kind, term.get('detail'))})
         return 'inconclusive'
     panic = ref.get('panic')
-    z3.push()
-    z3.send(prelude)
-    for d in core.input_decls(p['inputs']):
-        z3.send(d)
-    for d in p['defs']:
-        z3.send(d)
-    for cnd in p['pc']:
-        z3.send('(assert %s)' % cnd)
-    names = sorted(p['inputs'].keys())
-    verdict = 'ok'
-    try:
-        if kind == 'uncaught':
-            msg = term['msg'].get('c', '')
-            want = ref.get('panic_msg', 'runtime error: integer divide by zero')
-            if panic is None or want not in msg:
-                # JS panics where Go never does (or with another error): any input on this path is a counterexample
-                if panic is None:
-                    z3.send('(assert true)')
-                else:
-                    z3.send('(assert true)')
-                r = z3.check()
-                if r == 'sat':
-                    verdict = _violation(rep, z3, p, c, names, 'JavaScript raises %r where the reference %s' % (msg, 'never panics' if panic is None else 'panics with ' + want), None, None)
-                elif r == 'unknown':
-                    verdict = _inconclusive(rep, c, 'solver unknown on panic path')
-            else:
-                z3.send('(assert (not %s))' % panic)
-                r = z3.check()
-                if r == 'sat':
-                    verdict = _violation(rep, z3, p, c, names, 'JavaScript raises %r on an input where Go does not panic' % msg, None, None)
-                elif r == 'unknown':
-                    verdict = _inconclusive(rep, c, 'solver unknown on panic path')
-        elif kind == 'normal':
-            outs = [o for o in p['obs'] if o['k'] in ('log', 'out')]
-            if len(outs) != 1:
-                verdict = _inconclusive(rep, c, 'expected exactly one output, got %d' % len(outs))
-            else:
-                args = outs[0]['args']
-                tagarg = args[0].get('c')
-                if tagarg != c.tag:
-                    verdict = _inconclusive(rep, c, 'output tag %r does not match case' % tagarg)
-                else:
-                    jsv, jk = obs_term(args[-1])
-                    cmp_ = _compare(jsv, jk, ref)
-                    if cmp_ is None:
-                        verdict = _inconclusive(rep, c, 'cannot compare JS %s with reference %s' % (jk, ref.get('kind')))
-                    else:
-                        if panic is not None:
-                            z3.send('(assert (or %s (not %s)))' % (panic, cmp_))
-                        else:
-                            z3.send('(assert (not %s))' % cmp_)
-                        r = z3.check()
-                        if r == 'sat':
-                            verdict = _violation(rep, z3, p, c, names, 'value differs from the Go specification', jsv, ref)
-                        elif r == 'unknown':
-                            verdict = _inconclusive(rep, c, 'solver unknown/timeout on value comparison')
+    base = _base(prelude, p)
+    names = [k for k, d in p['inputs'].items() if not d.get('assert')]
+    if ref.get('trace') is not None:
+        # general form: the harness states, as one SMT formula over the inputs, that the reference produces exactly the
+        # events of this path (same tags, same values) and ends the same way
+        if kind not in ('normal', 'uncaught', 'exit'):
+            rep.violations.append({'tag': c.tag, 'why': 'unexpected termination %s' % json.dumps(term)[:300], 'model': {}, 'values': None, 'case': c, 'term': term})
+            return 'violation'
+        evs = []
+        for o in p['obs']:
+            if o['k'] not in ('log', 'out', 'err'):
+                continue
+            args = [obs_term(a) for a in o['args']]
+            evs.append({'k': o['k'], 'tag': o['args'][0].get('c') if o['args'] else None, 'args': args[1:], 'raw': o['args']})
+        if kind == 'normal':
+            end = ('normal', None)
+        elif kind == 'exit':
+            end = ('exit', term.get('code'))
         else:
-            verdict = _violation_noquery(rep, p, c, 'unexpected termination %s' % json.dumps(term)[:300])
-    finally:
-        z3.pop()
-    return verdict
+            end = ('panic', term['msg'].get('c', ''))
+        try:
+            m = ref['trace'](evs, end, p['inputs'])
+        except Mismatch:
+            m = 'false'
+        except Exception as e:  # noqa
+            return _inconclusive(rep, c, 'reference could not be evaluated on this path: %s' % str(e)[:200])
+        if m is None:
+            m = 'false'
+        return _decide(rep, z3, base, '(not %s)' % m, p, c, names, 'trace differs from the reference (events=%d, end=%s)' % (len(evs), end[0]), None, ref)
+    if kind == 'uncaught':
+        msg = term['msg'].get('c', '')
+        want = ref.get('panic_msg', 'runtime error: integer divide by zero')
+        if panic is None or want not in msg:
+            cond = 'true'
+            why = 'JavaScript raises %r where the reference %s' % (msg, 'never panics' if panic is None else 'panics with ' + want)
+        else:
+            cond = '(not %s)' % panic
+            why = 'JavaScript raises %r on an input where Go does not panic' % msg
+        return _decide(rep, z3, base, cond, p, c, names, why, None, ref)
+    if kind == 'normal':
+        outs = [o for o in p['obs'] if o['k'] in ('log', 'out')]
+        if len(outs) != 1:
+            return _inconclusive(rep, c, 'expected exactly one output, got %d' % len(outs))
+        args = outs[0]['args']
+        tagarg = args[0].get('c')
+        if tagarg != c.tag:
+            return _inconclusive(rep, c, 'output tag %r does not match case' % tagarg)
+        jsv, jk = obs_term(args[-1])
+        cmp_ = _compare(jsv, jk, ref)
+        if cmp_ is None:
+            return _inconclusive(rep, c, 'cannot compare JS %s with reference %s' % (jk, ref.get('kind')))
+        cond = '(or %s (not %s))' % (panic, cmp_) if panic is not None else '(not %s)' % cmp_
+        if ref.get('via') and ref.get('kind') == 'int' and jk == 'int':
+            # the equality is proved through intermediate terms (each step a separate obligation); a failing step is
+            # re-examined against the real reference with the inputs pinned to the solver's model
+            steps = [jsv] + list(ref['via']) + [ref['value']]
+            allok = True
+            for a, b in zip(steps, steps[1:]):
+                r, model, _ = z3.solve(base + ['(assert (not (= %s %s)))' % (a, b)], get=names)
+                if r == 'unsat':
+                    continue
+                allok = False
+                if r == 'sat':
+                    pins = ['(assert (= %s %s))' % (k, core.lit(v)) for k, v in model.items() if isinstance(v, int) and not isinstance(v, bool)]
+                    r2, _, _ = z3.solve(base + pins + ['(assert %s)' % cond])
+                    if r2 == 'sat':
+                        return _decide(rep, z3, base + pins, cond, p, c, names, 'value differs from the Go specification', jsv, ref)
+                break
+            if allok and panic is None:
+                return 'ok'
+            if allok:
+                return _decide(rep, z3, base, panic, p, c, names, 'JavaScript returns a value where Go panics', jsv, ref)
+            return _inconclusive(rep, c, 'a lemma step of the comparison was not discharged')
+        return _decide(rep, z3, base, cond, p, c, names, 'value differs from the Go specification', jsv, ref)
+    rep.violations.append({'tag': c.tag, 'why': 'unexpected termination %s' % json.dumps(term)[:300], 'model': {}, 'values': None, 'case': c, 'term': term})
+    return 'violation'
+
+
+def _decide(rep, z3, base, cond, p, c, names, why, jsv, ref):
+    """cond = the violating condition.  unsat -> ok; sat -> split into known-finding classes and anything else."""
+    import re
+    classes = [k for k in rep.known if k.get('status', 'known') == 'known' and re.fullmatch(k['harness'], c.tag)]
+    exprs = [jsv, ref['value']] if (jsv is not None and isinstance(jsv, str) and isinstance(ref.get('value'), str)) else None
+    lines = base + ['(assert %s)' % cond] + ['(assert (not %s))' % k['class_smt'] for k in classes]
+    r, model, vals = z3.solve(lines, get=names, exprs=exprs)
+    if r == 'unknown':
+        return _inconclusive(rep, c, 'solver unknown/timeout on comparison')
+    if r == 'sat':
+        rep.violations.append({'tag': c.tag, 'why': why, 'model': model, 'values': vals, 'case': c, 'term': p['term']})
+        return 'violation'
+    if not classes:
+        return 'ok'
+    # nothing outside the listed classes; which of them occur on this path?
+    hit = False
+    for k in classes:
+        r2, model2, _ = z3.solve(base + ['(assert %s)' % cond, '(assert %s)' % k['class_smt']], get=names)
+        if r2 == 'sat':
+            hit = True
+            rep.known_hits.append({'tag': c.tag, 'finding': k, 'model': model2})
+        elif r2 == 'unknown':
+            return _inconclusive(rep, c, 'solver unknown while separating known findings')
+    return 'known' if hit else 'ok'
 
 
 def _compare(jsv, jk, ref):
@@ -386,45 +473,6 @@ def _compare(jsv, jk, ref):
 def _inconclusive(rep, c, why):
     rep.inconclusive.append({'tag': c.tag, 'reason': why})
     return 'inconclusive'
-
-
-def _violation(rep, z3, p, c, names, why, jsv, ref):
-    """Called with the violating condition asserted and `sat`.  Splits the violating inputs into the classes listed in
-    known_findings.jsonl (reported as KNOWN-FINDING) and anything else (a VIOLATION)."""
-    import re
-    classes = [k for k in rep.known if k.get('status', 'known') == 'known' and re.fullmatch(k['harness'], c.tag)]
-    if classes:
-        z3.push()
-        for k in classes:
-            z3.send('(assert (not %s))' % k['class_smt'])
-        r = z3.check()
-        if r == 'unsat':
-            z3.pop()
-            for k in classes:
-                z3.push()
-                z3.send('(assert %s)' % k['class_smt'])
-                if z3.check() == 'sat':
-                    rep.known_hits.append({'tag': c.tag, 'finding': k, 'model': z3.model(names)})
-                z3.pop()
-            return 'known'
-        if r == 'unknown':
-            z3.pop()
-            return _inconclusive(rep, c, 'solver unknown while separating known findings')
-        # sat outside the known classes: fall through with this model
-    model = z3.model(names)
-    extra = None
-    if jsv is not None and isinstance(jsv, str):
-        extra = z3.ask('(get-value (%s %s))' % (jsv, ref['value']))
-    if classes:
-        z3.pop()
-    rep.violations.append({'tag': c.tag, 'why': why, 'model': {k: v for k, v in model.items()}, 'values': extra,
-                           'case': c, 'term': p['term']})
-    return 'violation'
-
-
-def _violation_noquery(rep, p, c, why):
-    rep.violations.append({'tag': c.tag, 'why': why, 'model': {}, 'values': None, 'case': c, 'term': p['term']})
-    return 'violation'
 
 
 # ------------------------------------------------------------------ replay on the real toolchain
@@ -460,6 +508,29 @@ def replay_program(case, model):
         gotype = rett
         return 'func Nondet%s(id int) %s {\n%s\n\treturn %s\n}' % (name, rett, body_for(gotype), m.group(3))
     decls = re.sub(r'func Nondet(\w+)\(id int\) (\w+) \{ return ([^}]+) \}', repl, decls)
+    # ranges and strings: look the values up in the model by input id
+    rng_lines, str_lines, r64_lines = [], [], {'Int64R': [], 'Uint64R': []}
+    for name, v in sorted(model.items()):
+        m = re.fullmatch(r'in_(\d+)', name)
+        if m and isinstance(v, int) and not isinstance(v, bool):
+            rng_lines.append('\tcase %s:\n\t\treturn %d' % (m.group(1), v) if -(1 << 31) <= v < (1 << 31) else '')
+            if -(1 << 63) <= v < (1 << 63):
+                r64_lines['Int64R'].append('\tcase %s:\n\t\treturn %d' % (m.group(1), v))
+            if 0 <= v < (1 << 64):
+                r64_lines['Uint64R'].append('\tcase %s:\n\t\treturn %d' % (m.group(1), v))
+        m = re.fullmatch(r'in_(\d+)_len', name)
+        if m:
+            n = v if isinstance(v, int) else 0
+            bs = [model.get('in_%s_%d' % (m.group(1), k), 0) for k in range(n)]
+            str_lines.append('\tcase %s:\n\t\treturn "%s"' % (m.group(1), ''.join('\\x%02x' % (b & 255) for b in bs)))
+    decls = decls.replace('func NondetRange(id int, lo int, hi int) int { return lo }',
+                          'func NondetRange(id int, lo int, hi int) int {\n\tswitch id {\n%s\n\t}\n\treturn lo\n}' % '\n'.join(x for x in rng_lines if x))
+    decls = decls.replace('func NondetString(id int, maxLen int) string { return "" }',
+                          'func NondetString(id int, maxLen int) string {\n\tswitch id {\n%s\n\t}\n\treturn ""\n}' % '\n'.join(str_lines))
+    decls = decls.replace('func NondetInt64R(id int, lo, hi int64) int64 { return lo }',
+                          'func NondetInt64R(id int, lo, hi int64) int64 {\n\tswitch id {\n%s\n\t}\n\treturn lo\n}' % '\n'.join(r64_lines['Int64R']))
+    decls = decls.replace('func NondetUint64R(id int, lo, hi uint64) uint64 { return lo }',
+                          'func NondetUint64R(id int, lo, hi uint64) uint64 {\n\tswitch id {\n%s\n\t}\n\treturn lo\n}' % '\n'.join(r64_lines['Uint64R']))
     src.append(decls)
     src.append(case.decl)
     src.append('\nfunc main() {\n%s\n}\n' % '\n'.join('\t' + ln for ln in case.body.split('\n')))
